@@ -3,7 +3,7 @@
     Model: AnalysisDefs.v (faithful transcription of the classification core of src/analyser.cpp);
     executable specification: AnalysisSpec.v (the same predicate is evaluated on the real AnalyserModel). *)
 From Coq Require Import List Bool Arith Permutation.
-From LC Require Import AnalysisDefs AnalysisSpec AnalysisProofs AnalysisWfProofs AnalysisOwnProofs AnalysisRenameProofs AnalysisConfluenceProofs AnalysisDefinerProofs AnalysisDepProofs AnalysisTopoProofs AnalysisEqVarsProofs AnalysisWitness AnalysisOrderWitness AnalysisScopeProofs.
+From LC Require Import AnalysisDefs AnalysisSpec AnalysisProofs AnalysisWfProofs AnalysisOwnProofs AnalysisRenameProofs AnalysisConfluenceProofs AnalysisDefinerProofs AnalysisDepProofs AnalysisTopoProofs AnalysisEqVarsProofs AnalysisWitness AnalysisOrderWitness AnalysisScopeProofs AnalysisRound7Proofs.
 Import ListNotations.
 
 (** ** Termination of the do/while over mInternalEquations *)
@@ -34,6 +34,22 @@ Theorem C05_fuel_irrelevant : forall s fuel loopn nla st es r,
   loop s fuel loopn nla st es = Some r -> forall k, loop s (fuel + k) loopn nla st es = Some r.
 Proof. exact AnalysisProofs.loop_fuel_monotone. Qed.
 Print Assumptions C05_fuel_irrelevant.
+
+(** Round 7: any two amounts of fuel on which the loop returns give the same result (no ordering of the fuels). *)
+Theorem C05_fuel_deterministic : forall s f1 f2 loopn nla st es r1 r2,
+  loop s f1 loopn nla st es = Some r1 -> loop s f2 loopn nla st es = Some r2 -> r1 = r2.
+Proof. exact AnalysisRound7Proofs.loop_fuel_deterministic. Qed.
+Print Assumptions C05_fuel_deterministic.
+
+(** Round 7: one sweep over a concatenated equation list is the sweep over the first part followed by the sweep
+    over the second part from the state the first leaves; results concatenate, progress flags are or-ed. *)
+Theorem C05_sweep_app : forall s nla es1 es2 st,
+  sweep s nla st (es1 ++ es2) =
+  let '(st1, r1, b1) := sweep s nla st es1 in
+  let '(st2, r2, b2) := sweep s nla st1 es2 in
+  (st2, r1 ++ r2, b1 || b2).
+Proof. exact AnalysisRound7Proofs.sweep_app. Qed.
+Print Assumptions C05_sweep_app.
 
 (** ** Well-formedness of valid results *)
 
